@@ -258,7 +258,7 @@ def degenerate_bounded_instance():
 
     def make(B):
         return {'model': B.choose('model', ['cacgmm', 'cwmm', 'gmm-full', 'gmm-diagonal', 'gmm-spherical', 'vmfmm', 'cacg', 'vmf', 'watson']),
-                'data': B.choose('data', ['generic', 'zero-frames', 'duplicated', 'collinear', 'few-frames', 'one-hot']),
+                'data': B.choose('data', ['generic', 'zero-frames', 'duplicated', 'collinear', 'few-frames', 'one-hot', 'offset']),
                 'K': B.choose('K', [2, 3]), 'D': B.choose('D', [2, 3, 4]), 'it': B.choose('it', [1, 2, 5]),
                 'wca': B.choose('wca', [(-1,), -2, (-3,), (-3, -1)]), 'seed': B.choose('seed', list(range(500))),
                 'dummy': B.given('d', np.zeros(1))}
@@ -295,17 +295,28 @@ def degenerate_bounded_instance():
                 data = 'generic'
                 y = rng.normal(size=(F, N if N > D else 12, D))
                 init = rng.dirichlet(np.ones(K), size=(F, y.shape[1])).transpose(0, 2, 1).copy()
+            if inp['data'] == 'offset':
+                # a common offset many standard deviations away from zero (finite observations of any location): one class,
+                # one M-step, so that the fitted variance has a closed form (two-pass weighted variance)
+                y = y + 10.0 ** rng.uniform(6, 9) * (1 + rng.rand(D))
+                init1 = np.ones((F, 1, y.shape[1]))
+                m = GMMTrainer().fit(y, initialization=init1, iterations=1, weight_constant_axis=wca, covariance_type=model[4:])
+                res.update(weight=m.weight, cov=m.gaussian.covariance, mean=m.gaussian.mean, K=1, ctype=model[4:],
+                           ref_var=np.var(y - y.mean(-2, keepdims=True), axis=-2))
+                return res
             m = GMMTrainer().fit(y, initialization=init, iterations=inp['it'], weight_constant_axis=wca, covariance_type=model[4:])
             res.update(weight=m.weight, cov=m.gaussian.covariance, mean=m.gaussian.mean, K=K, ctype=model[4:])
         elif model == 'vmfmm':
-            m = VMFMMTrainer().fit(y, initialization=init, iterations=inp['it'], weight_constant_axis=wca)
-            res.update(weight=m.weight, mean=m.vmf.mean, kappa=m.vmf.concentration, K=K, vmf=True)
+            lo_, hi_ = [(1e-10, 500), (2.0, 50.0), (0.5, 5.0)][inp['seed'] % 3]
+            m = VMFMMTrainer().fit(y, initialization=init, iterations=inp['it'], weight_constant_axis=wca, min_concentration=lo_, max_concentration=hi_)
+            res.update(weight=m.weight, mean=m.vmf.mean, kappa=m.vmf.concentration, K=K, vmf=True, clip=(lo_, hi_))
         elif model == 'cacg':
             m = ComplexAngularCentralGaussianTrainer().fit(y, iterations=inp['it'])
             res.update(lam=m.covariance_eigenvalues, V=m.covariance_eigenvectors)
         elif model == 'vmf':
-            m = VonMisesFisherTrainer().fit(y)
-            res.update(mean=m.mean, kappa=m.concentration, vmf=True)
+            lo_, hi_ = [(1e-10, 500), (2.0, 50.0), (0.5, 5.0)][inp['seed'] % 3]
+            m = VonMisesFisherTrainer().fit(y, min_concentration=lo_, max_concentration=hi_)
+            res.update(mean=m.mean, kappa=m.concentration, vmf=True, clip=(lo_, hi_))
         else:
             m = ComplexWatsonTrainer().fit(y)
             res.update(mode=m.mode, kappa=m.concentration)
@@ -332,7 +343,17 @@ def degenerate_bounded_instance():
         if out.get('vmf'):
             nrm = np.linalg.norm(np.asarray(out['mean']), axis=-1)
             yield 'vmf-mean-unit-norm-or-zero', bool(np.all((np.abs(nrm - 1) < 1e-8) | (nrm < 1e-8)))
-            yield 'vmf-concentration-within-clip', bool(np.all(np.asarray(out['kappa']) >= 1e-10 * (1 - 1e-12)) and np.all(np.asarray(out['kappa']) <= 500 + 1e-9))
+            lo_, hi_ = out.get('clip', (1e-10, 500))
+            yield 'vmf-concentration-within-[min,max]', bool(np.all(np.asarray(out['kappa']) >= lo_ * (1 - 1e-12)) and np.all(np.asarray(out['kappa']) <= hi_ * (1 + 1e-12)))
+        if 'ref_var' in out:
+            c, rv = np.asarray(out['cov']), out['ref_var']          # rv: (F, D)
+            if out['ctype'] == 'full':
+                got = np.einsum('fkdd->fd', c)
+            elif out['ctype'] == 'diagonal':
+                got = c[:, 0, :]
+            else:
+                got, rv = c[:, 0], rv.mean(-1)
+            yield 'gaussian-variance-positive-and-equal-to-the-two-pass-variance[%s]' % out['ctype'], bool(np.all(got > 0) and np.allclose(got, rv, rtol=1e-3))
         if 'cov' in out and out.get('ctype') == 'full':
             c = np.asarray(out['cov'])
             yield 'gaussian-covariance-symmetric', bool(np.allclose(c, np.swapaxes(c, -1, -2), rtol=1e-9, atol=1e-12))
